@@ -160,6 +160,18 @@ def rpc_reply(chk: Check) -> None:
     rebinds = [n for n in cfg.nodes if n.kind == 'stmt' and isinstance(n.ast, ast.Assign) and var is not None and norm(n.ast.targets[0]) == var and n not in asg]
     good &= all(isinstance(n.ast.value, ast.Await) and norm(n.ast.value.value) == var for n in rebinds)
     chk.ob('FWD-rpc-reply', rc, good, 'the reply is the value the control method returned (nested futures awaited), nothing else', kind='reply-is-call-result')
+    # every message is actioned: each call of _schedule_rpc schedules its own callback and answers through its own new future
+    off = chk.ctx.facts.analyse(outer)
+    ocfg = off.cfg
+    sched = [n for n in ocfg.nodes if any(any(isinstance(a, ast.Call) and isinstance(a.func, ast.Name) and a.func.id == rc.name for a in c.args) for c in _calls(n))]
+    ok = len(sched) == 1 and ocfg.must_pass(ocfg.entry, [ocfg.exit], lambda m: m in sched, edge_ok=no_exc)
+    chk.ob('FWD-rpc-reply', outer, ok, 'every way through _schedule_rpc schedules the callback (a request answered with the future of an earlier identical one is a message that is '
+           'never actioned: X, Y, X is not X, Y)', kind='every-message-scheduled')
+    rets = [n for n in ocfg.nodes if n.kind == 'return' and n.ast.value is not None]
+    fresh = [n for n in ocfg.nodes if n.kind == 'stmt' and isinstance(n.ast, ast.Assign) and isinstance(n.ast.value, ast.Call) and norm(n.ast.value.func) in ('kiwipy.Future', 'Future')
+             and isinstance(n.ast.targets[0], ast.Name)]
+    ok = len(fresh) == 1 and bool(rets) and all(norm(r.ast.value) == fresh[0].ast.targets[0].id and ocfg.must_pass(ocfg.entry, [r], lambda m: m in fresh, edge_ok=no_exc) for r in rets)
+    chk.ob('FWD-rpc-reply', outer, ok, 'the future handed back is the one created for THIS request', kind='own-reply-future')
 
 
 def announcement(chk: Check) -> None:
